@@ -11,6 +11,8 @@ CLAIMED = {
  'C16': ("Bounded symbolic model checking of container.Container against a byte-queue model: one inductive step from every invariant-satisfying representation (<= 3/4 compartments of 0..2 symbolic bytes) with each of the 29 operations and fully symbolic arguments (all int64 lengths, all uint64 numbers), plus constructor-based histories and 9..11 byte length prefixes.",
          "Trusted: go/ssa, symgo, z3; the byte-queue model and the representation invariant (asserted as post-condition of every step); compartments > 2 bytes and > 4 compartments are outside the claim."),
 }
+CLAIMED['C08'] = ("Bounded symbolic model checking of the stored-record format: wrapper round trip over fully symbolic metadata (4 x int64, 2 flags), all 256 format ids and 0..4 payload bytes; typed-record round trip with the JSON codec as a contract stub; decoder totality (no panic, no out-of-bounds read, data is a suffix of the input) for every byte string up to 6 (quick) / 12 (thorough) bytes, for 37..40-byte inputs carrying a full GenCode meta block, and for every truncation / single-byte corruption of a valid encoding.",
+         "Trusted: go/ssa, symgo, z3; codec (json/yaml/cbor/msgpack/gzip) contract stubs; value-level JSON fidelity is outside the claim.")
 NA = {}
 def check(pid):
     text, note = CLAIMED[pid]
